@@ -1426,6 +1426,18 @@ func (c *apiCase) neighbourBatches(state map[string]string) map[string]string {
 		}
 		return nbItem{}, false
 	}
+	// reserve the forced adjacency first:  X(with non-statefulset appType) , S(statefulset, appType omitted) , Y(with appType)
+	var triple []nbItem
+	if len(sts) > 0 && len(other) > 0 {
+		x, _ := pop(&other)
+		sEntry, _ := pop(&sts)
+		triple = []nbItem{{e: x}, {e: sEntry, omit: true}}
+		if y, ok := pop(&other); ok && c.r.Intn(3) != 0 {
+			triple = append(triple, nbItem{e: y})
+		} else if y, ok := pop(&sts); ok {
+			triple = append(triple, nbItem{e: y})
+		}
+	}
 	// batch 1: PRNG order
 	var items []nbItem
 	for n := 2 + c.r.Intn(5); n > 0; n-- {
@@ -1436,16 +1448,8 @@ func (c *apiCase) neighbourBatches(state map[string]string) map[string]string {
 	if len(items) >= 2 {
 		state = c.neighbourPost("prng-order", items, state)
 	}
-	// batch 2: forced adjacency  X(with non-statefulset appType) , S(statefulset, appType omitted) , Y(with appType)
-	if len(sts) > 0 && len(other) > 0 {
-		x, _ := pop(&other)
-		sEntry, _ := pop(&sts)
-		triple := []nbItem{{e: x}, {e: sEntry, omit: true}}
-		if y, ok := pop(&other); ok {
-			triple = append(triple, nbItem{e: y})
-		} else if y, ok := pop(&sts); ok {
-			triple = append(triple, nbItem{e: y})
-		}
+	// batch 2: the forced adjacency, surrounded by PRNG entries
+	if len(triple) > 0 {
 		var before, after []nbItem
 		for n := c.r.Intn(4); n > 0 && len(triple)+len(before)+len(after) < 6; n-- {
 			if it, ok := popAny(); ok {
